@@ -84,7 +84,7 @@ struct L11 : Listener {
         if (k != "look") return;
         ++looks;
         long long fam = op.arg(0) < 0 ? -op.arg(0) : op.arg(0), cls = op.arg(1), kk = op.arg(2) < 0 ? -op.arg(2) : op.arg(2);
-        fam %= 13;
+        fam %= 14;
         const ezc3d::c3d &c = in.o();
         Snap s = takeSnap(c);
         const bool useSlot = (kk / 7) % 4 == 3;          // sometimes look into the caller's own (standalone) frame
@@ -255,6 +255,51 @@ struct L11 : Listener {
             Probe p = probe([&](Probe &P) {
                 if (which == 0) P.desc = hex32(floatToBits(h.eventsTime(idx))); else if (which == 1) P.desc = std::to_string(h.eventsDisplay(idx)); else P.desc = q(h.eventsLabel(idx)); });
             if (!checkIdx(i, "Header::events*", idx, n, want, p)) return;
+            break; }
+        case 13: {  // look-ups interleaved with renames through the non-const accessors, on a caller-owned copy of the points / channels
+            tag = "lookup-after-rename";
+            ezc3d::DataNS::Points3dNS::Points P(fr->points());
+            const size_t n = P.nbPoints();
+            if (n >= 1) {
+                const size_t a = static_cast<size_t>(kk) % n;
+                const std::string oldName = P.point(a).name();
+                size_t first = SIZE_MAX; for (size_t j = 0; j < n; ++j) if (P.point(j).name() == oldName) { first = j; break; }
+                Probe p0 = probe([&](Probe &Q) { Q.desc = std::to_string(P.pointIdx(oldName)); });
+                if (p0.threw || p0.desc != std::to_string(first)) { fail(i, "pointIdx(" + q(oldName) + ") before the rename is wrong"); return; }
+                // rename that element: the old name must now resolve to the next element carrying it, or be refused
+                P.point_nonConst(first).name("renamed_by_caller");
+                size_t next = SIZE_MAX; for (size_t j = 0; j < n; ++j) if (P.point(j).name() == oldName) { next = j; break; }
+                Probe p1 = probe([&](Probe &Q) { Q.desc = std::to_string(P.pointIdx(oldName)); });
+                if (next == SIZE_MAX) { ++negative; if (!p1.threw || p1.cls != "invalid_argument") { fail(i, "after renaming the only point named " + q(oldName) + ", pointIdx still returns " + (p1.threw ? p1.cls : p1.desc)); return; } }
+                else if (p1.threw || p1.desc != std::to_string(next)) { fail(i, "after a rename pointIdx(" + q(oldName) + ") should be " + std::to_string(next)); return; }
+                Probe p2 = probe([&](Probe &Q) { Q.desc = std::to_string(P.pointIdx("renamed_by_caller")); });
+                size_t rn = SIZE_MAX; for (size_t j = 0; j < n; ++j) if (P.point(j).name() == "renamed_by_caller") { rn = j; break; }
+                if (p2.threw || p2.desc != std::to_string(rn)) { fail(i, "the new name is not found after a rename through point_nonConst"); return; }
+                // give an EARLIER element the name of a later one: the first match must now be the earlier element
+                if (n >= 2) {
+                    const size_t late = n - 1; const std::string lateName = P.point(late).name();
+                    Probe p3 = probe([&](Probe &Q) { Q.desc = std::to_string(P.pointIdx(lateName)); });
+                    (void)p3;
+                    P.point_nonConst(0).name(lateName);
+                    Probe p4 = probe([&](Probe &Q) { Q.desc = std::to_string(P.pointIdx(lateName)); Q.addr = &P.point(lateName); });
+                    if (p4.threw || p4.desc != "0" || p4.addr != &P.point(0)) { fail(i, "after giving element 0 the name " + q(lateName) + " the look-up by name does not return the first element with that name"); return; }
+                }
+            }
+            if (!sfr.subs.empty()) {
+                ezc3d::DataNS::AnalogsNS::SubFrame S(fr->analogs().subframe(0));
+                const size_t m = S.nbChannels();
+                if (m >= 1) {
+                    const size_t a = static_cast<size_t>(kk) % m; const std::string oldName = S.channel(a).name();
+                    size_t first = SIZE_MAX; for (size_t j = 0; j < m; ++j) if (S.channel(j).name() == oldName) { first = j; break; }
+                    Probe p0 = probe([&](Probe &Q) { Q.desc = std::to_string(S.channelIdx(oldName)); });
+                    if (p0.threw || p0.desc != std::to_string(first)) { fail(i, "channelIdx before the rename is wrong"); return; }
+                    S.channel_nonConst(first).name("renamed_channel");
+                    size_t next = SIZE_MAX; for (size_t j = 0; j < m; ++j) if (S.channel(j).name() == oldName) { next = j; break; }
+                    Probe p1 = probe([&](Probe &Q) { Q.desc = std::to_string(S.channelIdx(oldName)); });
+                    if (next == SIZE_MAX) { ++negative; if (!p1.threw || p1.cls != "invalid_argument") { fail(i, "after renaming the only channel named " + q(oldName) + ", channelIdx still finds it"); return; } }
+                    else if (p1.threw || p1.desc != std::to_string(next)) { fail(i, "after a rename channelIdx(" + q(oldName) + ") is wrong"); return; }
+                }
+            }
             break; }
         case 12: {  // trailing spaces: standalone Point/Points and Channel/SubFrame
             std::string base = pointNameOf(kk), padded = base + std::string(1 + static_cast<size_t>(kk % 3), ' ');
